@@ -57,6 +57,8 @@ def cases(tier, seed):
                 yield "permutations", dict(stage=stage, regroup=regroup, five=True)
     for stage in (1, 2, 3):
         yield "badrows", dict(stage=stage)
+        for regroup in (True, False):
+            yield "badrows_in_group", dict(stage=stage, regroup=regroup)
     for stage in (1, 3):
         for ratio in (None, 1):
             yield "nopsf", dict(stage=stage, ratio=ratio)
@@ -280,6 +282,54 @@ def ev_badrows(case, ctx):
                 ctx.violation("a %s source changes the results for the other sources: %s (%s)" % (kind, "; ".join(df[:3]), sig), "badrow_changes|" + sig)
 
 
+def ev_badrows_in_group(case, ctx):
+    """unusable rows that belong to the SAME fitting group as usable ones (a blend partner beyond the image edge, a blend
+    partner on a blank pixel), under all row orders"""
+    d = os.environ["VERIF_SCRATCH"]
+    hdr = hdr_()
+    rows, cols = SHAPE
+    A = skygauss.source_at_pixel(hdr, 7.4, 40.3, 1.0, 5.5, 3.3, 20.0)          # near the lower edge
+    C = skygauss.source_at_pixel(hdr, 52.2, 50.6, 0.8, 6.0, 3.4, -40.0)
+    B = skygauss.source_at_pixel(hdr, -4.0, 44.0, 0.7, 5.0, 3.3, 10.0)          # beyond the edge, 12 px from A
+    D = skygauss.source_at_pixel(hdr, 49.0, 58.0, 0.6, 5.0, 3.3, 60.0)          # on the blank patch, 8 px from C
+    img = skygauss.render(hdr, SHAPE, [A, C])
+    img[47:52, 56:61] = np.nan
+    f = os.path.join(d, "c05g.fits")
+    scenes.write_image(f, hdr, img)
+    good = [to_component(A, hdr, 1, uuid="good-A"), to_component(C, hdr, 2, uuid="good-C")]
+    bad = [to_component(B, hdr, 1, uuid="bad-B"), to_component(D, hdr, 2, uuid="bad-D")]
+    # without regrouping the (island, source) labels of the input define the groups
+    good[0].island, good[0].source, bad[0].island, bad[0].source = 1, 0, 1, 1
+    good[1].island, good[1].source, bad[1].island, bad[1].source = 2, 0, 2, 1
+    kw = dict(stage=case["stage"], doregroup=case["regroup"])
+    try:
+        base = run(f, good, **kw)
+    except Exception as e:
+        ctx.violation("priorized fit raised %r (baseline)" % (e,), "raise|badrows_in_group,baseline,%r" % (kw,))
+        return
+    truth = {"good-A": A, "good-C": C}
+    check_against_truth(base, good, truth, hdr, case["stage"], ctx, "badrows_in_group:baseline,%r" % (kw,), "baseline")
+    allrows = good + bad
+    for perm in itertools.permutations(range(4)):
+        ctx.count("badrows_in_group")
+        sig = "badrows_in_group:order=%s,stage=%d,regroup=%s" % ("".join("ACBD"[i] for i in perm), case["stage"], case["regroup"])
+        ctx.nontrivial(sig)
+        try:
+            out = run(f, [allrows[i] for i in perm], **kw)
+        except Exception as e:
+            ctx.violation("priorized fit raised %r (%s)" % (e, sig), "raise|" + sig)
+            continue
+        got_bad = [s_ for s_ in out if str(s_.uuid).startswith("bad-")]
+        ctx.outcome("in_group_bad_returned=%d" % len(got_bad))
+        if got_bad:
+            ctx.violation("a component is returned under the uuid of an unmeasurable source: %r (%s)" % ([s_.uuid for s_ in got_bad], sig),
+                          "badrow_uuid|" + sig)
+        df = same_results(base, [s_ for s_ in out if not str(s_.uuid).startswith("bad-")])
+        if df:
+            ctx.violation("an unusable source in the same group changes the results for the others: %s (%s)" % ("; ".join(df[:3]), sig),
+                          "badrow_in_group_changes|" + sig)
+
+
 def ev_nopsf(case, ctx):
     """catalogue lacking the optional psf columns (written without them and loaded from the file)"""
     from astropy.table import Table
@@ -332,4 +382,4 @@ def ev_many(case, ctx):
 
 
 def evaluate(clause, case, ctx):
-    dict(single=ev_single, edges=ev_edges, permutations=ev_permutations, badrows=ev_badrows, nopsf=ev_nopsf, many=ev_many)[clause](case, ctx)
+    dict(single=ev_single, edges=ev_edges, permutations=ev_permutations, badrows=ev_badrows, badrows_in_group=ev_badrows_in_group, nopsf=ev_nopsf, many=ev_many)[clause](case, ctx)
